@@ -496,3 +496,77 @@ func GenHistory(rng *rand.Rand, p GenParams) *History {
 	}
 	return h
 }
+
+// GenDrainHistory: a tree of height >= 2 built from ascending keys (full leaves), then many small
+// removals confined to ONE region of the key space (left edge, right edge or a middle window), a save
+// after every few of them and frequent prunes of everything but the last one or two versions. The
+// region's leaves thin out and merge, its inner node runs short and borrows from / merges with its
+// untouched sibling — between two consecutive saved versions that share all untouched nodes.
+func GenDrainHistory(rng *rand.Rand, nKeys int) *History {
+	p := GenParams{Mode: ModeSeq, Admin: true, NOps: 0, NVersions: 0, Deep: true}
+	h := &History{Params: p}
+	var m Model
+	emit := func(o Op) { h.Ops = append(h.Ops, o) }
+	key := func(i int) []byte { return []byte(fmt.Sprintf("k%06d", i)) }
+	for i := 0; i < nKeys; i++ {
+		v := genValue(rng, p, i)
+		if len(v) == 0 {
+			v = []byte{1}
+		}
+		m.Set(key(i), v)
+		emit(Op{Kind: OpSet, Key: key(i), Val: v})
+	}
+	var latest int64
+	var retained []int64
+	save := func() {
+		latest++
+		retained = append(retained, latest)
+		emit(Op{Kind: OpSave})
+	}
+	save()
+	// the drained window: about 40% of the key space
+	w := nKeys * 2 / 5
+	lo := []int{0, nKeys - w, rng.IntN(nKeys - w)}[rng.IntN(3)]
+	alive := make([]int, 0, w)
+	for i := lo; i < lo+w; i++ {
+		alive = append(alive, i)
+	}
+	for len(alive) > w/8 {
+		for k := 1 + rng.IntN(4); k > 0 && len(alive) > 0; k-- {
+			j := rng.IntN(len(alive))
+			if rng.IntN(3) == 0 { // runs of neighbours empty a leaf quickly
+				j = min(j, len(alive)-1)
+			}
+			i := alive[j]
+			alive = append(alive[:j], alive[j+1:]...)
+			m.Remove(key(i))
+			emit(Op{Kind: OpRemove, Key: key(i)})
+		}
+		if rng.IntN(8) == 0 { // an occasional update elsewhere in the window
+			if len(alive) > 0 {
+				i := alive[rng.IntN(len(alive))]
+				v := []byte{byte(rng.IntN(255) + 1), 2}
+				m.Set(key(i), v)
+				emit(Op{Kind: OpSet, Key: key(i), Val: v})
+			}
+		}
+		save()
+		if len(retained) >= 3 && rng.IntN(2) == 0 {
+			to := retained[len(retained)-2-rng.IntN(2)]
+			emit(Op{Kind: OpPrune, Version: to})
+			keep := retained[:0:0]
+			for _, v := range retained {
+				if v > to {
+					keep = append(keep, v)
+				}
+			}
+			retained = keep
+		}
+		if rng.IntN(25) == 0 {
+			emit(Op{Kind: OpReopen})
+		}
+	}
+	h.Params.NOps = len(h.Ops)
+	h.Params.NVersions = int(latest)
+	return h
+}
